@@ -106,7 +106,7 @@ def deleteMapEntry (left : Node) (index : Obj) : M Obj := do
     match ← envGet e id with
     | none => pure (.bool false)
     | some obj =>
-      -- the map may belong to an outer scope: look through the reference (repo fix d9797eb), as `evalIndexAssigment` does
+      -- the map may belong to an outer scope: look through the reference (repo fix 7a539ca), as `evalIndexAssigment` does
       let obj ← valueOf obj
       match obj with
       | .map big kvs =>
@@ -166,7 +166,7 @@ def splitArgs (f : FuncVal) (args : List Obj) : List String × List Obj × List 
   else (f.params, args, [])
 
 /-- `NewFunctionEnvironment`'s test "the callee is the function this frame is running" (a recursive call): same
-printed text AND same defining environment, i.e. the same closure (repo fix cdb9b8a: the text alone made two
+printed text AND same defining environment, i.e. the same closure (repo fix 22094ba: the text alone made two
 closures of one factory "the same function", so the callee looked its captures up in the caller's frame) -/
 def sameFunction (cf : Frame) (f : FuncVal) : Bool :=
   cf.cacheKey == f.key && (match cf.function with
@@ -510,7 +510,10 @@ def evalBuiltin : Nat → String → List Node → M Obj
     match t with
     | "CATCH" =>
       match val with
-      | .error m => pure (.map false [(errKey, .bool true), (valueKey, .str (toBytes m))])
+      | .error m => do
+        -- an error turned into a value must not make the enclosing call cacheable (it may be due to the bindings of the moment)
+        triggerNoCache (← curEnv)
+        pure (.map false [(errKey, .bool true), (valueKey, .str (toBytes m))])
       | _ => pure (.map false [(errKey, .bool false), (valueKey, val)])
     | "FIRST" => do objFirst (← valueOf val)
     | "REST" => do objRest (← valueOf val)
